@@ -203,6 +203,12 @@ Definition c07_ok (g : ledger) (o : op) (x : out) : bool :=
              (of this or another client) did in between may show *)
           && strs_eqb (t_scope t) (match scopes with [] => r_scopes r | _ => scopes end)
           && match t_jwt t with Some c => String.eqb c (r_client r) | None => true end
+          (* a JWT access token keeps the audience of the grant - exactly: nothing added, not even the
+             client -; only a grant without audience is for the client itself *)
+          && match t_jwt t with
+             | Some _ => strs_eqb (t_at_aud t) (match grant_aud cf (r_client r) with [] => [r_client r] | l => l end)
+             | None => true
+             end
           (* the response carries the storage's refresh token: a new one (never seen before) from a
              rotating storage, the presented one from a storage that keeps it *)
           && match t_rt t with
